@@ -23,7 +23,7 @@ func c07(c *Check) {
 	})
 	c.Rule("C07/msg-validate", "MsgUpdateClient.ValidateBasic validates the header; Header.ValidateBasic keeps its validator-set-hash and trusted-height checks", 3)
 	c.Spec("C07/msg-validate", Macros{}, FnSpec{Fn: tmT + "Header.ValidateBasic", Guards: []G{
-		{"valset-hash", "reject ($0.SignedHeader.Header.ValidatorsHash !=b tendermint/types.(*ValidatorSet).Hash(tendermint/types.ValidatorSetFromProto($0.ValidatorSet)#0))"},
+		{"valset-hash", "reject ($0.SignedHeader.Header.ValidatorsHash != tendermint/types.(*ValidatorSet).Hash(tendermint/types.ValidatorSetFromProto($0.ValidatorSet)#0))"},
 		{"trusted-height-not-above", "reject (tendermint/types.(Header).GetHeight($0) <H $0.TrustedHeight)"},
 	}})
 	c.Spec("C07/msg-validate", Macros{}, FnSpec{Fn: "x/xibc/core/client/types.MsgUpdateClient.ValidateBasic", Guards: []G{
